@@ -65,7 +65,7 @@ def part1(M):
 
 PROOFS = ["right", "wrong-code", "arbitrary", "short", "front-truncated", "empty", "absent", "absent-but-encrypted-data"]
 ACC_IDS = [hap.ACC_ID.encode(), b"7c:2a:91:0b:e4:5d", b"bridge-0001"]
-M6S = ["honest", "honest-but-empty-state", "absent", "arbitrary", "truncated", "wrong-key-label", "wrong-nonce", "inner", "fields-outside-envelope"]
+M6S = ["honest", "honest-but-empty-state", "honest-with-an-undefined-error-code", "absent", "arbitrary", "truncated", "wrong-key-label", "wrong-nonce", "inner", "fields-outside-envelope"]
 OUTSIDE = ["signature", "identifier", "public-key", "all"]
 INNER_ID = ["own", "absent"]
 INNER_PK = ["own", "other-key", "absent"]
@@ -158,6 +158,9 @@ def part2(M):
             m6, authentic = honest, True
         elif msel == "honest-but-empty-state":
             m6, state6 = honest, b""  # a State item truncated to zero length is not the expected step number
+        elif msel == "honest-with-an-undefined-error-code":
+            m6 = honest  # valid content next to an Error item whose code is not one of 01..07 (any other byte, or two bytes)
+            outer_error = [(7, be.arbitrary("m6err", 1)) if ex.fresh_bool("one_byte_error") else (7, b"\x02\x00")]
         elif msel == "absent":
             m6 = None
         elif msel == "arbitrary":
@@ -198,6 +201,8 @@ def part2(M):
             authentic = isel == "own" and pk is not None and ssel == "valid"
             presented = (own_id, pkv)
         fields = [(T_STATE, state6)] + ([(T_ENC, m6)] if m6 is not None else [])
+        if msel == "honest-with-an-undefined-error-code":
+            fields = fields[:1] + outer_error + fields[1:]
         if msel == "fields-outside-envelope":
             fields += outer_extra
         # BLE hands the whole decoded reply to the state machine, IP/CoAP apply the 'expected' filter
@@ -238,10 +243,13 @@ def part2(M):
     return h
 
 
-def honest_exchange(M, be, srv, ident, lt, replay=None):
+OTHER_CODE = "999-99-998"
+
+
+def honest_exchange(M, be, srv, ident, lt, replay=None, controller_code=None):
     """pair-setup M3..M6 against a conformant accessory (or, with replay=(proof, m6), against a party that only replays what it
     recorded).  -> (pairing data or None, SRP public value of the controller, (proof, m6))"""
-    gen = M.proto.perform_pair_setup_part2(CODE, hap.IOS_ID, be.ba(srv.salt), be.ba(srv.B))
+    gen = M.proto.perform_pair_setup_part2(controller_code or CODE, hap.IOS_ID, be.ba(srv.salt), be.ba(srv.B))
     req, expected = gen.send(None)
     r = dict(req)
     try:
@@ -277,7 +285,7 @@ def two_pairings(M):
         if data1 is None:
             return ex.observe("first-failed")
         snapshot = dict(data1)
-        second = ex.choice("second_exchange", ["honest-other-accessory", "replay-of-the-first"])
+        second = ex.choice("second_exchange", ["honest-other-accessory", "replay-of-the-first", "controller-got-a-new-code-accessory-still-has-the-old-one"])
         ex.tag(second)
         if second == "honest-other-accessory":
             srv2 = hap.SymSrpServer(be, CODE, n=2) if be.sym else be.srp_server(CODE)
@@ -287,6 +295,11 @@ def two_pairings(M):
                        "the second pairing returns the second accessory's authenticated identity")
             ex.require(data2 is not data1 and all(data1.get(k) is v or data1.get(k) == v for k, v in snapshot.items()) and len(data1) == len(snapshot),
                        "the data returned by the first pairing is not altered by a later pairing")
+        elif second.startswith("controller-got"):
+            # same accessory (same salt, same verifier for the old code), the controller is now given another code: the exchange
+            # must fail at M4 - whatever the first exchange computed for this salt must not be reused
+            data2, a2, _ = honest_exchange(M, be, srv1.next_exchange(), hap.ACC_ID.encode(), "A", controller_code=OTHER_CODE)
+            ex.require(data2 is None, "an accessory holding another setup code than the controller is refused, also right after an exchange with its code")
         else:
             # a party that knows neither the setup code nor a long-term key replays the recorded M2 (salt, B), M4 and M6
             data2, a2, _ = honest_exchange(M, be, srv1, None, None, replay=rec)
@@ -309,7 +322,7 @@ def build(tier, mutate=None):
         Unit("setup/srp-values-as-bytes (unit of C02)", c02.protocol_unit(c02.copies(mutate)), c02.protocol_unit(c02.reals()),
              bounds={"leading zero in": ["none", "A", "K", "M1"]}, regions=["lz-none", "lz-K"], diff_sample=100000),
         Unit("setup/two-pairings", two_pairings(C), two_pairings(R), bounds={"exchanges": 2, "second": "another honest accessory / a replay of the first exchange"},
-             regions=["honest-other-accessory", "replay-of-the-first"]),
+             regions=["honest-other-accessory", "replay-of-the-first", "controller-got-a-new-code-accessory-still-has-the-old-one"]),
     ]
     for u in units:
         u.diff_sample = 100000  # every proved path is also replayed with real SRP / Ed25519 / ChaCha20 on the real library
